@@ -145,6 +145,10 @@ func TestVerifC02Cluster(t *testing.T) {
 			break
 		}
 		*useProtobuf = true
+		robust.MessageOffset = 0
+		if ji%2 == 1 {
+			robust.MessageOffset = 4648398125000000000
+		}
 		L, err := c02NewCtx(fmt.Sprintf("%s/L%d", base, ji), j.log)
 		if err != nil {
 			t.Fatal(err)
@@ -191,7 +195,7 @@ func TestVerifC02Cluster(t *testing.T) {
 						ch := j.log.Chunks[F.w.nextChunk]
 						F.w.nextChunk++
 						for _, e := range ch.Entries {
-							st := F.w.twin.Apply(e)
+							st := F.w.twin.Apply(c02Msg(e))
 							F.w.twinOut[e.Id] = st.Msgs
 							F.w.applied = append(F.w.applied, e)
 						}
@@ -237,10 +241,10 @@ func TestVerifC02Cluster(t *testing.T) {
 			// the two nodes agree on every input both still serve
 			for _, e := range F.w.applied {
 				L.enter()
-				a, okA := outputStream.Get(robust.Id{Id: e.Id})
+				a, okA := outputStream.Get(robust.Id{Id: robust.IdFromRaftIndex(e.Id)})
 				L.leave()
 				F.enter()
-				b, okB := outputStream.Get(robust.Id{Id: e.Id})
+				b, okB := outputStream.Get(robust.Id{Id: robust.IdFromRaftIndex(e.Id)})
 				F.leave()
 				if okA && okB {
 					same := len(a) == len(b)
